@@ -6,8 +6,8 @@
   that drives `ExtMap.loop` is an explicit `.panic` branch of `Res` (resp. `Out.panic` for `step`);
   the theorems below say none of them is reachable.
 
-  Termination.  Every definition of the model is accepted by Lean's termination checker without
-  `partial`/`unsafe`: all recursions are structural on the subtag list (`LangId.loop`, `UExt.loop`,
+  Termination.  Every definition of the model is accepted by Lean's termination checker as a total
+  function (no escape hatch is used anywhere in `Model/`): all recursions are structural on the subtag list (`LangId.loop`, `UExt.loop`,
   `TExt.fieldLoop`, `collectTypes`, `collectAll`, …) except `ExtMap.loop`, whose recursive calls are
   on the suffix handed back by a sub-parser and which is therefore structurally recursive on a
   `fuel : Nat` argument.  That acceptance is the proof that the model never loops.  What remains
@@ -20,9 +20,10 @@
 -/
 import UnicLocale.Lemmas.Total
 import UnicLocale.Props.C02
+import UnicLocale.Lemmas.GenDataWF
 
 namespace UL.Props.C01
-open UL
+open UL UL.Tot
 
 /-! ### language identifiers and subtag constructors -/
 
@@ -155,22 +156,8 @@ example : ({} : UExt).setKeyword [99,97] [[98,117,100,100,104,105,115,116], [0]]
 
 /-! ### likely subtags and direction -/
 
-/-- a small well-formed table set: `en`/`und` → en-Latn-US in every table -/
-def tiny : Tables where
-  langOnly := #[⟨28261, 28262, 1853120845, 21334⟩, ⟨6581877, 28262, 1853120845, 21334⟩]
-  langRegion := #[⟨28261, 21333, 28262, 1853120845, 21334⟩]
-  langScript := #[⟨28261, 1853120844, 28262, 1853120845, 21334⟩]
-  scriptRegion := #[⟨1853120844, 21333, 28262, 1853120845, 21334⟩]
-  scriptOnly := #[⟨1853120844, 28262, 1853120845, 21334⟩]
-  regionOnly := #[⟨21333, 28262, 1853120845, 21334⟩]
-
-/-- an ill-formed one: the value of `en` has no language (encoded `0`) -/
-def bad : Tables := { tiny with langOnly := #[⟨28261, 0, 1853120845, 21334⟩] }
-
-def tinyLayout : Layout := ⟨[1853120844], [1650553409], [1735290701], [29281]⟩
-
-theorem tiny_wf : tablesWF tiny = true := by decide
-theorem bad_not_wf : tablesWF bad = false := by decide
+theorem tiny_wf : tablesWF tinyTables = true := by decide
+theorem bad_not_wf : tablesWF badTables = false := by decide
 
 /-- `likelysubtags::maximize` / `minimize` never reach the `.unwrap()` of `lang_from_parts`, for any
     well-formed tables and any (language, script, region) — valid subtags or not: a hit of the
@@ -213,16 +200,16 @@ theorem direction_isOk (flag : Bool) (T : Tables) (L : Layout) (x : LangId) (h :
     (LangId.direction flag T L x).isOk = true :=
   LangId.direction_isOk flag (tablesWF_valuesHaveLang h) L x
 
--- non-vacuity: the hypothesis holds for `tiny`, where the functions do real work …
-example : Likely.maximize tiny (some [101,110]) none none
+-- non-vacuity: the hypothesis holds for `tinyTables`, where the functions do real work …
+example : Likely.maximize tinyTables (some [101,110]) none none
     = .ok (some (some [101,110], some [76,97,116,110], some [85,83])) := by decide
-example : Likely.minimize tiny (some [101,110]) (some [76,97,116,110]) (some [85,83])
+example : Likely.minimize tinyTables (some [101,110]) (some [76,97,116,110]) (some [85,83])
     = .ok (some (some [101,110], none, none)) := by decide
-example : Likely.maximize tiny (some [0, 300]) (some []) none = .ok none := by decide   -- not even a subtag
--- … and it is needed: on `bad` the `.unwrap()` is reached
-example : Likely.maximize bad (some [101,110]) none none = .panic := by decide
-example : LangId.direction true bad ⟨[], [], [], [28261]⟩ { language := some [101,110] } = .panic := by decide
-example : LangId.direction true tiny tinyLayout { language := some [97,114] } = .ok .rtl := by decide
+example : Likely.maximize tinyTables (some [0, 300]) (some []) none = .ok none := by decide   -- not even a subtag
+-- … and it is needed: on `badTables` the `.unwrap()` is reached
+example : Likely.maximize badTables (some [101,110]) none none = .panic := by decide
+example : LangId.direction true badTables ⟨[], [], [], [28261]⟩ { language := some [101,110] } = .panic := by decide
+example : LangId.direction true tinyTables tinyLayout { language := some [97,114] } = .ok .rtl := by decide
 
 /-! ### the whole mutation / query API as one statement -/
 
@@ -250,12 +237,33 @@ theorem histories_total (T : Tables) (h : tablesWF T = true) (os : List Op) (x :
     · exact ops_total T x o h
     · exact ih _ p hp
 
--- non-vacuity: a history on `tiny` with malformed arguments and both table operations
-example : (run tiny {} [.setLanguage [101,110], .setKeyword [99] [], .addTag [0], .maximize, .minimize,
+-- non-vacuity: a history on `tinyTables` with malformed arguments and both table operations
+example : (run tinyTables {} [.setLanguage [101,110], .setKeyword [99] [], .addTag [0], .maximize, .minimize,
                         .removeTag [102,111,111]]).map (·.2)
     = [.unit, .err, .err, .bool true, .bool true, .bool false] := by decide
 example : (Op.setKeyword [99] [] ≠ .maximize ∧ Op.setKeyword [99] [] ≠ .minimize) := by decide
--- and on `bad` the same call does report the panic
-example : (step bad { id := { language := some [101,110] } } .maximize).2 = .panic := by decide
+-- and on `badTables` the same call does report the panic
+example : (step badTables { id := { language := some [101,110] } } .maximize).2 = .panic := by decide
+
+/-! ### instantiated at the tables compiled into the crate
+
+`Gen.tables` is regenerated from the compiled statics on every check run and `Gen.tables_wf`
+(`Lemmas/GenDataWF`) is re-decided by the kernel whenever they change: in particular every table value
+carries a language, so the `.unwrap()` in `lang_from_parts` is unreachable. -/
+
+theorem likely_total_compiled (l : Language) (s r : Option Bytes) :
+    (Likely.maximize Gen.tables l s r).isPanic = false ∧ (Likely.minimize Gen.tables l s r).isPanic = false :=
+  likely_total Gen.tables l s r Gen.tables_wf
+
+theorem direction_total_compiled (flag : Bool) (x : LangId) :
+    (LangId.direction flag Gen.tables Gen.layout x).isPanic = false :=
+  direction_total flag Gen.tables Gen.layout x Gen.tables_wf
+
+/-- every public call on every `Locale` with every argument, against the compiled tables -/
+theorem ops_total_compiled (x : Locale) (o : Op) : (step Gen.tables x o).2 ≠ .panic :=
+  ops_total Gen.tables x o Gen.tables_wf
+
+theorem histories_total_compiled (os : List Op) (x : Locale) : ∀ p ∈ run Gen.tables x os, p.2 ≠ .panic :=
+  histories_total Gen.tables Gen.tables_wf os x
 
 end UL.Props.C01
